@@ -5,6 +5,7 @@ CONSTANTS
   WAng <- AngQuick
   WCombo <- ComboQuick
   WStart <- Frames
+  WRepeat = FALSE
   RNy <- RNyAll
   ROffH <- ROffAll
   RPosQ <- RPosSet
